@@ -64,6 +64,8 @@ WhereJoin == {TRUEx, <<"isnone", Fb(1)>>, <<"eq", Fb(2), L(97)>>}
 
 Q_C04sel == {[BaseQ EXCEPT !.items = <<it>>, !.where = w, !.join = j, !.jkeys = ks] :
                 it \in ItemsJoin, w \in WhereJoin, j \in {"inner", "left", "strict"}, ks \in JoinKeys}
+\* for the JavaScript port: without the item whose failure for an unmatched LEFT JOIN row is Python's str + None TypeError ("a" + null is "anull" in JS)
+Q_C04selJS == {qq \in Q_C04sel : qq.items # <<E(<<"cat", Fa(1), Fb(1)>>)>> \/ qq.join # "left"}
 ItemsJoinQ == {E(Fa(1)), E(Fb(2)), E(<<"bNR">>), <<"star">>, <<"bstar">>, <<"unnest", <<"flds", <<1, 2>>>>>>}
 Q_C04selQ == {[BaseQ EXCEPT !.items = <<it>>, !.where = w, !.join = j, !.jkeys = ks] :
                 it \in ItemsJoinQ, w \in {TRUEx, <<"isnone", Fb(1)>>}, j \in {"inner", "left", "strict"}, ks \in JoinKeys}
